@@ -71,6 +71,12 @@ def run(st, env):
         return
     if k == 'NullStmt':
         return
+    if k == 'DeclStmt':
+        for d in st.get('inner', []):
+            if d.get('kind') == 'VarDecl' and 'init' in d:
+                init = [c for c in d.get('inner', []) if c.get('kind') not in ('FullComment',)]
+                env[d['name']] = value(init[-1], env)
+        return
     e = strip(st)
     if is_assign(e) and e['opcode'] == '=':
         env[_path(e['inner'][0])] = value(e['inner'][1], env)
